@@ -153,7 +153,17 @@ unsafe fn do_open(path: *const c_char, flags: c_int, mode: mode_t, which: u8) ->
         let _b = Bypass::new();
         try_with_sim(|s| s.rel(&p)).flatten()
     };
-    let Some(rel) = rel else { return real_open(path, flags, mode) };
+    let Some(rel) = rel else {
+        // a file outside the simulation root: pass through, but if the kernel hands out a
+        // descriptor number that the model still associates with a file closed by a foreign
+        // thread (Async fdatasync worker), forget that stale association
+        let fd = real_open(path, flags, mode);
+        if fd >= 0 {
+            let _b = Bypass::new();
+            try_with_sim(|s| s.forget_fd(fd));
+        }
+        return fd;
+    };
     sched_point();
     let _b = Bypass::new();
     let verdict = try_with_sim(|s| s.pre_open(&rel, flags)).unwrap_or(Verdict::Pass);
